@@ -107,7 +107,7 @@ func (g *VG) PrimValues(name string) []any {
 		return []any{"0", "8000000000000000", "3ff0000000000000", "bff0000000000000", "7ff0000000000000", "fff0000000000000", "7ff8000000000000",
 			"7ff4000000000001", "fff8123456789abc", "1", "7fefffffffffffff", "400921fb54442d18"}
 	case "string":
-		return []any{hx(""), hx("a"), hx("hello, wörld ✓"), hx(longString), "fffe80c3", hx("nul\x00inside"), hx(" ")}
+		return []any{hx(""), hx("a"), hx("hello, wörld ✓"), hx(longString), "fffe80c3", hx("nul\x00inside"), hx(" "), hx(strings.Repeat(longString, 15))}
 	case "guid":
 		return []any{"000102030405060708090a0b0c0d0e0f", "00000000000000000000000000000000", "ffffffffffffffffffffffffffffffff",
 			"e215a946b26f4567a27613136f0a1708", "80000000000000000000000000000001"}
@@ -146,7 +146,7 @@ func (g *VG) Type(t schema.Type, i, depth int) any {
 	switch t.Kind {
 	case "array":
 		if t.Elem.IsSimple() && (t.Elem.Name == "byte" || t.Elem.Name == "uint8") {
-			switch i % 5 {
+			switch i % 6 {
 			case 0:
 				return nil
 			case 1:
@@ -156,7 +156,11 @@ func (g *VG) Type(t schema.Type, i, depth int) any {
 			case 3:
 				return "00ff10a55a"
 			}
-			b := make([]byte, 300)
+			n := 300
+			if i%6 == 5 && depth <= 2 {
+				n = 5000 // longer than any up-front allocation a stream decoder makes
+			}
+			b := make([]byte, n)
 			for j := range b {
 				b[j] = byte(j*7 + i)
 			}
@@ -166,7 +170,7 @@ func (g *VG) Type(t schema.Type, i, depth int) any {
 			return nil
 		}
 		var n int
-		switch i % 5 {
+		switch i % 7 {
 		case 0:
 			return nil
 		case 1:
@@ -175,8 +179,13 @@ func (g *VG) Type(t schema.Type, i, depth int) any {
 			n = 1
 		case 3:
 			n = 3
-		case 4:
+		case 4, 6:
 			n = 2
+		case 5:
+			n = 2
+			if depth <= 1 {
+				n = 21 // more elements than a stream decoder pre-allocates
+			}
 		}
 		out := make([]any, n)
 		for j := range out {
